@@ -84,6 +84,10 @@ def run_c15(pid, tier, seed):
     ]
     r = vlib.tlc_must_pass(vlib.run_tlc("tbf", "MC_TBF", "MC_TBF.cfg"), "MC_TBF")
     rep.add_tlc(r)
+    # the oracle itself against the property's words: virtual bucket ever negative <=> some interval of the
+    # history carries more than burst + rate * length (all departure patterns within the cfg's constants)
+    rep.add_tlc(vlib.tlc_must_pass(vlib.run_tlc("tbf", "MC_TBFEquiv", "MC_TBFEquiv.cfg"), "MC_TBFEquiv"))
+    rep.notes.append("MC_TBFEquiv: the conformance automaton's verdict (virtual bucket negative) coincides with the interval bound of the property on every history of up to 4 departures (rates 0..2, bursts 0/2/5)")
     rep.exhaustive = True
     d = vlib.scratch("tr-")
     repo = vlib.repo_copy()
